@@ -17,7 +17,17 @@ CLAIMED = {
 REASON_PENDING = "check not built yet (planned in DESIGN.md section 6; nothing is claimed for it until its Coq model, theorems and correspondence run exist)"
 
 
+def load_claims():
+    d = os.path.join(VERIF, "vlib", "claims")
+    if os.path.isdir(d):
+        for fn in sorted(os.listdir(d)):
+            if fn.endswith(".json"):
+                c = json.load(open(os.path.join(d, fn)))
+                CLAIMED[fn[:-5].upper()] = (c["text"], c["note"], c["technique"], c.get("ref", "6/" + fn[:-5].upper()))
+
+
 def main():
+    load_claims()
     props = [json.loads(l) for l in open(os.path.join(VERIF, "properties.jsonl"))]
     checks, na = [], []
     for p in props:
